@@ -226,7 +226,6 @@ class TimeBase(np.ndarray):
 
         return self.jd > other.jd
 
-    @lru_cache()
     def to_scale(self, scale: str) -> "TimeBase":
         """Convert to a different scale
  
@@ -242,6 +241,12 @@ class TimeBase(np.ndarray):
         if scale == self.scale:
             return self
 
+        # The converted time keeps the format of this time, which equality (the key of the cache) does not look at
+        return self._to_scale(scale, self.fmt)
+
+    @lru_cache()
+    def _to_scale(self, scale: str, fmt: str) -> "TimeBase":
+        """Convert to a different scale, keeping the given format"""
         # Raise error for unknown scales
         if scale not in self._scales():
             scales = ", ".join(self._scales())
@@ -249,14 +254,14 @@ class TimeBase(np.ndarray):
 
         # Simplified conversion if time is None
         if self.shape == () and self.item() == None: # time is None
-            return _SCALES[self.cls_name][scale](val=None, fmt=self.fmt, _jd1=None, _jd2=None)
+            return _SCALES[self.cls_name][scale](val=None, fmt=fmt, _jd1=None, _jd2=None)
 
         # Convert to new scale
         hop = (self.scale, scale)
         if hop in _CONVERSIONS[self.cls_name]:
             jd1, jd2 = _CONVERSIONS[self.cls_name][hop](self)
             try:
-                return self._scales()[scale].from_jds(jd1, jd2, self.fmt)
+                return self._scales()[scale].from_jds(jd1, jd2, fmt)
             except ValueError:
                 # Given format does not exist for selected time scale, use default jd
                 return self._scales()[scale].from_jds(jd1, jd2, "jd")
@@ -267,7 +272,7 @@ class TimeBase(np.ndarray):
         for one_hop in _CONVERSION_HOPS[self.cls_name][hop]:
             jd1, jd2 = _CONVERSIONS[self.cls_name][one_hop](converted_time)
             try:
-                converted_time = self._scales()[one_hop[-1]].from_jds(jd1, jd2, self.fmt)
+                converted_time = self._scales()[one_hop[-1]].from_jds(jd1, jd2, fmt)
             except ValueError:
                 # Given format does not exist for selected time scale, use default jd
                 converted_time = self._scales()[one_hop[-1]].from_jds(jd1, jd2, "jd")
@@ -440,6 +445,8 @@ class TimeBase(np.ndarray):
 
     def __eq__(self, other):
         if isinstance(other, self.__class__):
+            if np.shape(self.jd1) != np.shape(other.jd1):
+                return False
             return np.all(self.jd1 == other.jd1) and np.all(self.jd2 == other.jd2)
         else:
             return NotImplemented
